@@ -629,6 +629,13 @@ fn corpus() -> Vec<(&'static str, bool)> {
         ("EXPLAIN VERBOSE SELECT x FROM a", false),
         ("EXPLAIN ANALYZE SELECT x FROM a", false),
         ("EXPLAIN FORMAT TREE SELECT x FROM a", false),
+        ("EXPLAIN FORMAT PGJSON SELECT x FROM a", false),
+        ("EXPLAIN FORMAT GRAPHVIZ SELECT x FROM a", false),
+        ("EXPLAIN FORMAT INDENT SELECT x FROM a", false),
+        ("EXPLAIN ANALYZE VERBOSE SELECT x FROM a", false),
+        ("REPLACE INTO b VALUES (1, 2, 'q')", false),
+        ("MERGE INTO b USING a ON a.x = b.x WHEN MATCHED THEN UPDATE SET z = a.y WHEN NOT MATCHED THEN INSERT (x, z, s) VALUES (a.x, a.y, a.s)", false),
+        ("MERGE INTO b USING a ON a.x = b.x WHEN MATCHED AND a.y > 1 THEN DELETE WHEN NOT MATCHED BY SOURCE THEN DELETE", false),
         ("INSERT INTO b SELECT x, y, s FROM a", false),
         ("INSERT INTO b VALUES (1, 2, 'q')", false),
         ("INSERT OVERWRITE b SELECT x, y, s FROM a", false),
